@@ -82,6 +82,10 @@ def cases(tier, seed):
     # bounding box is much longer than wide), noise-free
     for ratio, pa, snr, ph in itertools.product([2.0, 2.5, 3.0], [0.0, 4.0, 86.0, 90.0, 93.0, 177.0], [12.0, 20.0, 30.0, 45.0], [(0.0, 0.0), (0.35, -0.2)]):
         yield "G", dict(ratio=ratio, pa=pa, snr=snr, phase=list(ph))
+    # H: images whose reference point IS a celestial pole (the local "North" of the beam and of position angles turns with the
+    # right ascension across such an image)
+    for proj, pole, spot, pa in itertools.product(["SIN", "ZEA", "TAN"], [90.0, -90.0], [(20.3, 40.2), (33.0, 31.5), (50.4, 12.7)], [-60.0, 10.0, 80.0]):
+        yield "H", dict(proj=proj, pole=pole, spot=list(spot), pa=pa)
     nreal = 8 if q else 24
     for real, mode, rmsmode, snr, s in itertools.product(range(nreal), ["white", "corr"], ["forced", "bane1", "bane2"], [50, 200], [1, 2]):
         if rmsmode != "forced" and (real % 4 != 0):
@@ -223,6 +227,30 @@ def ev_D(case, ctx):
     except Exception as e:
         ctx.violation("finder raised %r (%s)" % (e, sig), "raise|" + sig)
         return
+    compare_noisefree(out, src, hdr, beam, ctx, sig, sig)
+
+
+def ev_H(case, ctx):
+    d = os.environ["VERIF_SCRATCH"]
+    cd = 10.0 / 3600
+    shape = (64, 66)
+    beam_px = (4.0, 3.0, 20.0)
+    beam = (beam_px[0] * cd, beam_px[1] * cd, beam_px[2])
+    hdr = wz.make_header(case["proj"], (30.0 + core.seed_shift(ctx.seed, 23, 40.0), case["pole"]), cd, shape, beam=beam)
+    hdr["LONPOLE"] = 180.0          # explicit (the FITS default at CRVAL2 = +90 would be 0); the reference WCS assumes 180
+    src = skygauss.source_at_pixel(hdr, case["spot"][0], case["spot"][1], 1.0, 6.0, 4.0, case["pa"])
+    f = os.path.join(d, "c01h.fits")
+    scenes.write_image(f, hdr, skygauss.render(hdr, shape, [src]))
+    sig = "H:%s,crval2=%g,spot=%r,pa=%g" % (case["proj"], case["pole"], case["spot"], case["pa"])
+    ctx.count("H")
+    ctx.nontrivial(sig)
+    try:
+        out = run_finder(f, rms=0.01, bkg=0.0, docov=False)
+    except Exception as e:
+        ctx.violation("finder raised %r on an image whose reference point is a pole (%s)" % (e, sig), "raise|" + sig)
+        return
+    # the beam of the header is defined at the reference point; away from it the local beam of these projections differs by
+    # parts in 1e-4 over 30 pixels, as everywhere else
     compare_noisefree(out, src, hdr, beam, ctx, sig, sig)
 
 
@@ -388,4 +416,4 @@ def ev_C(case, ctx):
 
 
 def evaluate(clause, case, ctx):
-    dict(A=ev_A, B=ev_B, C=ev_C, D=ev_D, E=ev_E, F=ev_F, G=ev_G)[clause](case, ctx)
+    dict(A=ev_A, B=ev_B, C=ev_C, D=ev_D, E=ev_E, F=ev_F, G=ev_G, H=ev_H)[clause](case, ctx)
